@@ -1,3 +1,250 @@
-/-! C02 model (stub) -/
+/-!
+# C02 model: in-memory sending queue + context-aware condition variable, as an interleaving LTS
+
+Mirrors `exporter/exporterhelper/internal/queuebatch/memory_queue.go` (`Offer`, `add`, `Read`, `onDone`,
+`Shutdown`, `linkedQueue`, `blockingDone`) and `cond.go` **as repaired** (per-waiter channels: `Signal`
+closes the channel of the first registered waiter and therefore never blocks; a cancelled waiter that
+finds itself already signalled forwards the signal).  The pinned `cond.go` (one shared channel of
+capacity 1, `Signal` sends while holding the lock) is modelled separately in `Model/C02Pinned.lean`,
+where its reachable deadlock is exhibited.
+
+Granularity: one transition per mutex critical section and one per `select` exit.  A critical
+section is atomic because (a) every access to the shared fields happens under `mu`, and (b) no
+operation inside a critical section can block: `close(ch)`, `sync.Cond.Signal/Broadcast`, and the send
+on the fresh capacity-1 `blockingDone.ch` (trusted Go semantics, see trusted base).
+
+Threads: any number.  Producer `p` performs one `Offer` of the request with id `p`; consumers call
+`Read` any number of times; `complete id e` is `Done.OnDone(e)` for a handed-over request, by any
+goroutine; `cancel p` ends producer `p`'s context; `shutdown` is `Shutdown`.
+
+`sync.Cond` (`hasMoreElements`) is over-approximated: a consumer parked in `Wait` may re-check its
+predicate whenever the predicate holds (`recheck`).  Every real schedule is a schedule of this model.
+-/
 namespace OtelVerif.C02
+
+/-- pointwise update of a thread map -/
+def upd {α : Type} (f : Nat → α) (i : Nat) (a : α) : Nat → α := fun j => if j = i then a else f j
+
+@[simp] theorem upd_same {α : Type} (f : Nat → α) (i : Nat) (a : α) : upd f i a i = a := by simp [upd]
+theorem upd_other {α : Type} (f : Nat → α) (i j : Nat) (a : α) (h : j ≠ i) : upd f i a j = f j := by simp [upd, h]
+
+structure Cfg where
+  cap : Int
+  block : Bool     -- block_on_overflow
+  wfr : Bool       -- wait_for_result
+deriving Repr, DecidableEq
+
+/-- what `Offer` returned -/
+inductive Res
+  | ok                 -- nil (zero-sized request ignored, or enqueued without wait_for_result)
+  | invalid            -- errInvalidSize
+  | tooLarge           -- errSizeTooLarge
+  | full               -- ErrQueueIsFull
+  | ctxErr             -- ctx.Err()
+  | result (e : Nat)   -- wait_for_result: the error passed to OnDone (0 = nil)
+deriving Repr, DecidableEq
+
+/-- where a producer goroutine is -/
+inductive Ph
+  | idle               -- has not called Offer
+  | sel                -- in `select` inside cond.Wait
+  | wokenTok           -- left the select through its own (closed) channel, about to `L.Lock()`
+  | wokenCtx           -- left the select through ctx.Done(), about to `L.Lock()`
+  | waitRes            -- enqueued, in the `select` on done.ch / ctx.Done()  (wait_for_result)
+  | done (r : Res)     -- Offer returned r
+deriving Repr, DecidableEq
+
+structure P where
+  ph : Ph := .idle
+  el : Int := 0          -- size of the request
+  sig : Bool := false    -- this waiter's channel has been closed by Signal
+  canc : Bool := false   -- ctx.Done() is closed
+deriving Repr, DecidableEq
+
+structure St where
+  ps : Nat → P := fun _ => {}
+  waiters : List Nat := []            -- cond.waiters, arrival order
+  items : List (Nat × Int) := []      -- linkedQueue, head first: (id, size)
+  inflight : List (Nat × Int) := []   -- popped by Read, OnDone not called yet
+  size : Int := 0                     -- mq.size
+  stopped : Bool := false
+  cwait : List Nat := []              -- consumers parked in hasMoreElements.Wait(), arrival order
+  results : List (Nat × Nat) := []    -- blockingDone.ch contents: (id, err) sent, not received yet
+  -- history
+  accepted : List Nat := []           -- ids in the order `add` pushed them
+  refused : List Nat := []            -- ids whose Offer returned without pushing (error)
+  handed : List Nat := []             -- ids in the order Read popped them
+  finished : List Nat := []           -- ids whose OnDone ran
+  outcomes : List (Nat × Nat) := []   -- (id, err) of every OnDone
+
+inductive Label
+  | offer (p : Nat) (el : Int)
+  | cancel (p : Nat)
+  | wakeTok (p : Nat) | wakeCtx (p : Nat) | relockTok (p : Nat) | relockCtx (p : Nat)
+  | getRes (p : Nat) | resCtx (p : Nat)
+  | read (c : Nat) | recheck (c : Nat)
+  | complete (id : Nat) (e : Nat)
+  | shutdown
+deriving Repr, DecidableEq
+
+def setP (s : St) (p : Nat) (x : P) : St := { s with ps := upd s.ps p x }
+
+/-- `cond.Signal()`: close the channel of the first registered waiter -/
+def condSignal (s : St) : St :=
+  match s.waiters with
+  | [] => s
+  | w :: ws => { s with waiters := ws, ps := upd s.ps w { s.ps w with sig := true } }
+
+/-- Offer returns an error without having pushed -/
+def refuse (s : St) (p : Nat) (r : Res) : St :=
+  { s with refused := s.refused ++ [p], ps := upd s.ps p { s.ps p with ph := .done r, sig := false } }
+
+/-- `add` after the loop: `size += elSize; items.push; hasMoreElements.Signal()` -/
+def accept (k : Cfg) (s : St) (p : Nat) (el : Int) : St :=
+  { s with size := s.size + el, items := s.items ++ [(p, el)], accepted := s.accepted ++ [p],
+           ps := upd s.ps p { s.ps p with ph := if k.wfr then .waitRes else .done .ok, el := el, sig := false } }
+
+/-- `cond.Wait` up to the select: append a fresh channel, unlock -/
+def register (s : St) (p : Nat) (el : Int) : St :=
+  { s with waiters := s.waiters ++ [p], ps := upd s.ps p { s.ps p with ph := .sel, el := el, sig := false } }
+
+/-- one evaluation of the `for mq.size+elSize > mq.cap` loop of `add`, holding the lock -/
+def tryAdd (k : Cfg) (s : St) (p : Nat) (el : Int) : St :=
+  if s.size + el > k.cap then
+    if k.block then register s p el else refuse s p .full
+  else accept k s p el
+
+/-- `items.pop()` inside Read -/
+def pop (s : St) : Option St :=
+  match s.items with
+  | [] => none
+  | (id, el) :: t => some { s with items := t, inflight := s.inflight ++ [(id, el)], handed := s.handed ++ [id] }
+
+/-- `cond.Wait`, ctx branch after `L.Lock()`: `if !c.remove(ch) { c.Signal() }` -/
+def ctxCleanup (s : St) (p : Nat) : St :=
+  if p ∈ s.waiters then { s with waiters := s.waiters.erase p } else condSignal s
+
+/-- `onDone`: `size -= elSize; hasMoreSpace.Signal(); if waitForResult { bd.ch <- err }` -/
+def finish (k : Cfg) (s : St) (id : Nat) (el : Int) (e : Nat) : St :=
+  let s1 := condSignal { s with size := s.size - el, inflight := s.inflight.filter (fun x => x.1 != id),
+                                finished := s.finished ++ [id], outcomes := s.outcomes ++ [(id, e)] }
+  if k.wfr then { s1 with results := s1.results ++ [(id, e)] } else s1
+
+def fire (k : Cfg) (s : St) : Label → Option St
+  | .offer p el =>
+    if (s.ps p).ph = .idle then
+      if el = 0 then some (setP s p { s.ps p with ph := .done .ok })
+      else if el < 0 then some (refuse s p .invalid)
+      else if el > k.cap then some (refuse s p .tooLarge)
+      else some (tryAdd k s p el)
+    else none
+  | .cancel p => some (setP s p { s.ps p with canc := true })
+  | .wakeTok p =>
+    if (s.ps p).ph = .sel ∧ (s.ps p).sig = true then some (setP s p { s.ps p with ph := .wokenTok }) else none
+  | .wakeCtx p =>
+    if (s.ps p).ph = .sel ∧ (s.ps p).canc = true then some (setP s p { s.ps p with ph := .wokenCtx }) else none
+  | .relockTok p =>
+    if (s.ps p).ph = .wokenTok then some (tryAdd k s p (s.ps p).el) else none
+  | .relockCtx p =>
+    if (s.ps p).ph = .wokenCtx then some (refuse (ctxCleanup s p) p .ctxErr) else none
+  | .getRes p =>
+    if (s.ps p).ph = .waitRes then
+      match s.results.lookup p with
+      | some e => some { s with results := s.results.filter (fun x => x.1 != p),
+                                ps := upd s.ps p { s.ps p with ph := .done (.result e) } }
+      | none => none
+    else none
+  | .resCtx p =>
+    if (s.ps p).ph = .waitRes ∧ (s.ps p).canc = true then some (setP s p { s.ps p with ph := .done .ctxErr }) else none
+  | .read c =>
+    if c ∈ s.cwait then none else
+    match pop s with
+    | some s' => some s'
+    | none => if s.stopped then some s else some { s with cwait := s.cwait ++ [c] }
+  | .recheck c =>
+    if c ∈ s.cwait then
+      match pop s with
+      | some s' => some { s' with cwait := s'.cwait.erase c }
+      | none => if s.stopped then some { s with cwait := s.cwait.erase c } else none
+    else none
+  | .complete id e =>
+    match s.inflight.lookup id with
+    | some el => some (finish k s id el e)
+    | none => none
+  | .shutdown => some { s with stopped := true }
+
+/-- run a schedule; `none` if some label is not enabled -/
+def runSched (k : Cfg) : St → List Label → Option St
+  | s, [] => some s
+  | s, l :: ls => match fire k s l with
+    | some s' => runSched k s' ls
+    | none => none
+
+/-- reachable from the initial state by some schedule -/
+def Reachable (k : Cfg) (s : St) : Prop := ∃ ls, runSched k {} ls = some s
+
+/-- labels that model the goroutines' own progress (as opposed to the environment: offer, cancel, read,
+complete, shutdown) -/
+def Label.internal : Label → Bool
+  | .wakeTok _ | .wakeCtx _ | .relockTok _ | .relockCtx _ | .getRes _ | .resCtx _ | .recheck _ => true
+  | _ => false
+
+/-! ## cond.go alone (repaired), for the scheduler-controlled cond harness -/
+
+inductive CRes | nil | ctx
+deriving Repr, DecidableEq
+
+inductive CPh | idle | sel | wokenTok | wokenCtx | done (r : CRes)
+deriving Repr, DecidableEq
+
+structure W where
+  ph : CPh := .idle
+  sig : Bool := false
+  canc : Bool := false
+deriving Repr, DecidableEq
+
+structure CSt where
+  ws : Nat → W := fun _ => {}
+  waiters : List Nat := []
+  signals : Nat := 0      -- Signal calls that found a registered waiter (incl. forwarded ones)
+
+inductive CLabel
+  | wait (i : Nat) | cancel (i : Nat) | wakeTok (i : Nat) | wakeCtx (i : Nat) | relockTok (i : Nat) | relockCtx (i : Nat)
+  | signal | broadcast
+deriving Repr, DecidableEq
+
+def CSt.signal (s : CSt) : CSt :=
+  match s.waiters with
+  | [] => s
+  | w :: ws => { s with waiters := ws, ws := upd s.ws w { s.ws w with sig := true }, signals := s.signals + 1 }
+
+def CSt.broadcast (s : CSt) : CSt :=
+  { s with waiters := [], ws := fun j => if j ∈ s.waiters then { s.ws j with sig := true } else s.ws j }
+
+def cfire (s : CSt) : CLabel → Option CSt
+  | .wait i =>
+    if (s.ws i).ph = .idle then
+      some { s with waiters := s.waiters ++ [i], ws := upd s.ws i { s.ws i with ph := .sel, sig := false } }
+    else none
+  | .cancel i => some { s with ws := upd s.ws i { s.ws i with canc := true } }
+  | .wakeTok i =>
+    if (s.ws i).ph = .sel ∧ (s.ws i).sig = true then some { s with ws := upd s.ws i { s.ws i with ph := .wokenTok } } else none
+  | .wakeCtx i =>
+    if (s.ws i).ph = .sel ∧ (s.ws i).canc = true then some { s with ws := upd s.ws i { s.ws i with ph := .wokenCtx } } else none
+  | .relockTok i =>
+    if (s.ws i).ph = .wokenTok then some { s with ws := upd s.ws i { s.ws i with ph := .done .nil, sig := false } } else none
+  | .relockCtx i =>
+    if (s.ws i).ph = .wokenCtx then
+      let s1 := if i ∈ s.waiters then { s with waiters := s.waiters.erase i } else s.signal
+      some { s1 with ws := upd s1.ws i { s1.ws i with ph := .done .ctx, sig := false } }
+    else none
+  | .signal => some s.signal
+  | .broadcast => some s.broadcast
+
+def crun : CSt → List CLabel → Option CSt
+  | s, [] => some s
+  | s, l :: ls => match cfire s l with
+    | some s' => crun s' ls
+    | none => none
+
 end OtelVerif.C02
